@@ -399,7 +399,7 @@ func checkC08(c *Ctx) {
 	atomicDrop = "TRUE"
 	n := 120
 	if !c.Quick() {
-		n = 1000
+		n = 5000
 	}
 	plans := make([]crashPlan, n)
 	for i := range plans {
